@@ -26,12 +26,12 @@ BYK = {"ord": "(5 - X.0) / 2", "partial_ord": "(X.0 + 1) % 3", "eq": "(5 - X.0) 
 COH = "X.0 / 2"
 
 
-def field(cmp=None, ty="eq", kty="eq", dom=2):
-    return {"cmp": cmp or {a: dict(NOOPT) for a in ATTRS}, "ty": ty, "kty": kty, "dom": dom}
+def field(cmp=None, ty="eq", kty="eq", dom=2, nan=False):
+    return {"cmp": cmp or {a: dict(NOOPT) for a in ATTRS}, "ty": ty, "kty": kty, "dom": dom, "nan": nan}
 
 
 def ty_src(f):
-    return "::dx_support::V" if f["ty"] == "eq" else "::dx_support::NE"
+    return {"eq": "::dx_support::V", "noneq": "::dx_support::NE", "pv": "::dx_support::PV"}[f["ty"]]
 
 
 def key_expr(a, f, mode):
@@ -119,7 +119,7 @@ def values_of(P):
     """Abstract values (spec vocabulary: variant index is 1-based) and their constructor expressions."""
     vals, ctors = [], []
     for vi, v in enumerate(P["variants"]):
-        doms = [range(f["dom"]) for f in v["fields"]]
+        doms = [list(range(f["dom"])) + ([7] if f.get("nan") else []) for f in v["fields"]]
         for tup in itertools.product(*doms):
             vals.append({"v": vi + 1, "f": list(tup)})
             args = ["%s(%d)" % (ty_src(f), x) for f, x in zip(v["fields"], tup)]
@@ -249,6 +249,13 @@ def plain():
     return {a: dict(NOOPT) for a in ATTRS}
 
 
+def pv_shapes():
+    """float-like (partially ordered, NaN) field types: used only where nothing but PartialEq / PartialOrd is derived"""
+    def s_pv(c): return mkP("struct", [{"shape": "tuple", "fields": [field(ty="pv", dom=2, nan=True), field(c, ty="pv", dom=3, nan=True), field(ty="pv", dom=1, nan=True)]}])
+    def e_pv(c): return mkP("enum", [{"shape": "named", "fields": [field(c, ty="pv", dom=3, nan=True), field(ty="pv", dom=2, nan=True)]}, {"shape": "tuple", "fields": [field(ty="pv", dom=1, nan=True)]}])
+    return [("struct_pv", s_pv), ("enum_pv", e_pv)]
+
+
 def mkP(kind, variants):
     return {"kind": kind, "tcmp": plain(), "variants": [dict(v, vcmp=plain()) for v in variants]}
 
@@ -264,7 +271,9 @@ def shapes(tier):
                                        {"shape": "tuple", "fields": [field()]}])
     def e_tuple_last(c): return mkP("enum", [{"shape": "tuple", "fields": [field(), field(c, dom=6)]},
                                              {"shape": "unit", "fields": []}])
-    q = [("struct_named_first", s_named_first), ("enum_variant2_named", e_var2), ("struct_tuple_only", s_tuple_only)]
+    def e_tuple_mid(c): return mkP("enum", [{"shape": "tuple", "fields": [field(), field(c, dom=6), field()]},
+                                            {"shape": "named", "fields": [field()]}])
+    q = [("struct_named_first", s_named_first), ("enum_variant2_named", e_var2), ("struct_tuple_only", s_tuple_only), ("enum_tuple_mid", e_tuple_mid)]
     if tier == "thorough":
         q += [("struct_named_last", s_named_last), ("struct_tuple_mid", s_tuple_mid), ("enum_tuple_last", e_tuple_last)]
     return q
